@@ -876,6 +876,77 @@ var simplifiers = []func(s *Step) bool{
 		}
 		return false
 	},
+	// structural: drop one nested element (proposal, transform, selector, attribute) at a time
+	func(s *Step) bool {
+		if s.Msg == nil {
+			return false
+		}
+		for i := range s.Msg.Payloads {
+			p := &s.Msg.Payloads[i]
+			if len(p.Proposals) > 1 {
+				p.Proposals = p.Proposals[:len(p.Proposals)-1]
+				return true
+			}
+			for j := range p.Proposals {
+				pr := &p.Proposals[j]
+				lists := []*[]TransformSpec{&pr.ESN, &pr.DH, &pr.Integ, &pr.Prf, &pr.Encr}
+				total := 0
+				for _, l := range lists {
+					total += len(*l)
+				}
+				for _, l := range lists {
+					if len(*l) > 0 && total > 1 {
+						*l = (*l)[:len(*l)-1]
+						return true
+					}
+				}
+			}
+			if len(p.TS) > 1 {
+				p.TS = p.TS[:len(p.TS)-1]
+				return true
+			}
+			if len(p.Attrs) > 1 {
+				p.Attrs = p.Attrs[:len(p.Attrs)-1]
+				return true
+			}
+			if p.EAP != nil && len(p.EAP.Attrs) > 1 {
+				p.EAP.Attrs = p.EAP.Attrs[:len(p.EAP.Attrs)-1]
+				return true
+			}
+			if len(p.SPIs) > 1 {
+				p.SPIs = p.SPIs[:len(p.SPIs)-1]
+				p.NumSPI = uint16(len(p.SPIs))
+				return true
+			}
+		}
+		return false
+	},
+	// structural: drop the FIRST nested element
+	func(s *Step) bool {
+		if s.Msg == nil {
+			return false
+		}
+		for i := range s.Msg.Payloads {
+			p := &s.Msg.Payloads[i]
+			if len(p.Proposals) > 1 {
+				p.Proposals = p.Proposals[1:]
+				return true
+			}
+			if len(p.TS) > 1 {
+				p.TS = p.TS[1:]
+				return true
+			}
+			if len(p.Attrs) > 1 {
+				p.Attrs = p.Attrs[1:]
+				return true
+			}
+			if p.EAP != nil && len(p.EAP.Attrs) > 1 {
+				p.EAP.Attrs = p.EAP.Attrs[1:]
+				return true
+			}
+		}
+		return false
+	},
 	// no bookkeeping noise
 	func(s *Step) bool {
 		if s.Msg == nil || (s.Msg.HdrNext == 0 && !s.Msg.Junk) {
